@@ -341,6 +341,7 @@ class World(object):
         self.shared_tasks = {}
         self.groups = {}  # tid -> (group id, position) for start-order monitor
         self.group_members = {}
+        self.group_owner = {}
         self.ngroups = 0
         self.nsteps = 0
         self.sv = [AsyncScopedValue(0), AsyncScopedValue(0)]
@@ -479,6 +480,15 @@ class World(object):
                     self.register_task(tid, at)
             g = self.groups.get(tid)
             if g is not None:
+                # a member that some OTHER task (not the one that yielded the list) is awaiting by now was scheduled
+                # depth-first through that task, not by the list: the written order does not govern it
+                me = self.tasks.get(tid)
+                owner = self.group_owner.get(g[0])
+                for t2, ly in self.last_yield.items():
+                    if t2 != owner and me is not None and any(lf is me for lf in ly):
+                        g = None
+                        break
+            if g is not None:
                 gid, pos = g
                 for (otid, opos) in self.group_members[gid]:
                     if opos < pos and self.steps.get(otid, 0) == 0:
@@ -544,6 +554,7 @@ class World(object):
                 gid = self.ngroups
                 self.ngroups += 1
                 self.group_members[gid] = members
+                self.group_owner[gid] = tid
                 for otid, p in members:
                     self.groups[otid] = (gid, p)
 
